@@ -70,6 +70,22 @@ def action(h):
                 return "(AExit %s)" % L.Z(a[0].value)
             return "AUnknown"
     if any(n.endswith("skipped.append") for n in names) and any(n.endswith("new_files_list.remove") for n in names):
+        # the handler itself must not be able to raise: only bookkeeping and logging calls over names, constants and
+        # attributes every exception of the caught class has
+        for s in h.body:
+            for n in ast.walk(s):
+                if isinstance(n, ast.Call):
+                    f = dotted(n.func)
+                    if not (f in ("self.skipped.append", "new_files_list.remove", "traceback.format_exc", "LOG.isEnabledFor")
+                            or f.startswith("LOG.")):
+                        return "AUnknown"
+                elif isinstance(n, ast.Attribute):
+                    d = dotted(n)
+                    if not (d in ("self.skipped", "self.skipped.append", "new_files_list.remove", "traceback.format_exc", "logging.DEBUG",
+                                  "logging.INFO", "e.strerror", "LOG.isEnabledFor") or d.startswith("LOG.")):
+                        return "AUnknown"
+                elif isinstance(n, (ast.Subscript, ast.BinOp, ast.JoinedStr, ast.Raise, ast.Assert, ast.With, ast.For, ast.While, ast.Try)):
+                    return "AUnknown"
         reason = None
         for s in h.body:
             for n in ast.walk(s):
@@ -183,7 +199,31 @@ def ladders():
         rows.append("(%s, FuncFact %s %s %s)" % (
             L.pstr(key), L.lst(try_facts(fn), "tryfact"),
             L.lst([L.pstr(c) for _, _, c in all_calls], "pstr"), L.nat(yields_unprotected)))
-    return "Definition ladders : list (pstr * funcfact) := %s.\n" % L.lst(rows, "pstr * funcfact")
+    # what run_tests iterates over: the list being scanned must not be the working copy files are removed from
+    tree = ast.parse(open(os.path.join(REPO, "bandit/core/manager.py")).read())
+    rt = find_func(tree, "BanditManager.run_tests")
+    loop = []
+    for n in ast.walk(rt):
+        if isinstance(n, ast.For):
+            loop.append("for %s in %s" % (ast.unparse(n.target), ast.unparse(n.iter)))
+        if isinstance(n, ast.Assign) and any(dotted(t) in ("files", "new_files_list", "self.files_list") for t in n.targets):
+            loop.append("%s = %s" % (ast.unparse(n.targets[0]), ast.unparse(n.value)))
+    # the order of the test set: plugins filtered from the registry's ordered list, never taken from a set
+    ts = ast.parse(open(os.path.join(REPO, "bandit/core/test_set.py")).read())
+    init = find_func(ts, "BanditTestSet.__init__")
+    order = []
+    for n in ast.walk(init):
+        if isinstance(n, ast.Assign) and dotted(n.targets[0]) == "self.plugins":
+            order.append(ast.unparse(n.value))
+        if isinstance(n, ast.Call) and dotted(n.func).startswith("self.plugins."):
+            order.append(ast.unparse(n))
+    lt = find_func(ts, "BanditTestSet._load_tests")
+    for n in ast.walk(lt):
+        if isinstance(n, ast.For):
+            order.append("for %s in %s" % (ast.unparse(n.target), ast.unparse(n.iter)))
+    extra0 = "Definition TESTSET_ORDER : list pstr := %s.\n" % L.lst([L.pstr(x) for x in order], "pstr")
+    extra = extra0 + "Definition RUN_TESTS_LOOP : list pstr := %s.\n" % L.lst([L.pstr(x) for x in sorted(loop)], "pstr")
+    return "Definition ladders : list (pstr * funcfact) := %s.\n" % L.lst(rows, "pstr * funcfact") + extra
 
 
 def exn_matrix():
@@ -397,6 +437,35 @@ def locations():
                     rows.append((fname, k.value, ast.unparse(v)))
     body += "Definition CTX_ASSIGNS : list (pstr * (pstr * pstr)) := %s.\n" % L.lst(
         [L.pair(L.pstr(a), L.pair(L.pstr(b), L.pstr(c))) for a, b, c in sorted(rows) if b in ("lineno", "linerange", "col_offset", "end_col_offset")], "pstr * (pstr * pstr)")
+    # ---- which visitor methods write the name-resolution state
+    cls = [n for n in nv.body if isinstance(n, ast.ClassDef) and n.name == "BanditNodeVisitor"][0]
+    writers = set()
+    MUT = {"pop", "add", "update", "clear", "setdefault", "discard", "remove", "popitem", "append", "extend", "insert"}
+    for fn in cls.body:
+        if not isinstance(fn, ast.FunctionDef):
+            continue
+        for n in ast.walk(fn):
+            tgts = []
+            if isinstance(n, ast.Assign):
+                tgts = n.targets
+            elif isinstance(n, (ast.AugAssign, ast.AnnAssign)):
+                tgts = [n.target]
+            elif isinstance(n, ast.Delete):
+                tgts = n.targets
+            for t in tgts:
+                base = t.value if isinstance(t, ast.Subscript) else t
+                if dotted(base) in ("self.import_aliases", "self.imports"):
+                    writers.add((fn.name, dotted(base)[5:]))
+            if isinstance(n, ast.Call) and isinstance(n.func, ast.Attribute) and n.func.attr in MUT \
+                    and dotted(n.func.value) in ("self.import_aliases", "self.imports"):
+                writers.add((fn.name, dotted(n.func.value)[5:]))
+            # handing the table to other code counts as a potential write, except into the context dictionary
+            if isinstance(n, ast.Call):
+                for a in list(n.args) + [k.value for k in n.keywords]:
+                    if dotted(a) in ("self.import_aliases", "self.imports"):
+                        writers.add((fn.name, dotted(a)[5:] + " passed to " + dotted(n.func)))
+    body += "Definition NAME_STATE_WRITERS : list (pstr * pstr) := %s.\n" % L.lst(
+        [L.pair(L.pstr(a), L.pstr(b)) for a, b in sorted(writers)], "pstr * pstr")
     # ---- tester defaults
     te = ast.parse(open(os.path.join(REPO, "bandit/core/tester.py")).read())
     rt = find_func(te, "BanditTester.run_tests")
@@ -415,7 +484,41 @@ def locations():
     return body
 
 
+def formats():
+    """How the JSON and YAML formatters order their records: sorted(collector, key=itemgetter(K)) with K chosen by
+    manager.agg_type == 'vuln'."""
+    rows = []
+    for fmt in ("json", "yaml"):
+        tree = ast.parse(open(os.path.join(REPO, "bandit/formatters/%s.py" % fmt)).read())
+        rep = find_func(tree, "report")
+        found = None
+        for n in ast.walk(rep):
+            if isinstance(n, ast.If) and ast.unparse(n.test) in ("manager.agg_type == 'vuln'",):
+                def key_of(stmts):
+                    if len(stmts) != 1 or not isinstance(stmts[0], ast.Assign):
+                        raise ValueError("%s: aggregation branch is not a single assignment" % fmt)
+                    v = stmts[0].value
+                    if not (isinstance(v, ast.Call) and dotted(v.func) == "sorted" and len(v.args) == 1 and dotted(v.args[0]) == "collector"
+                            and len(v.keywords) == 1 and v.keywords[0].arg == "key"):
+                        raise ValueError("%s: records are not ordered by sorted(collector, key=...)" % fmt)
+                    k = v.keywords[0].value
+                    if not (isinstance(k, ast.Call) and dotted(k.func) in ("itemgetter", "operator.itemgetter") and len(k.args) == 1
+                            and isinstance(k.args[0], ast.Constant)):
+                        raise ValueError("%s: sort key is not itemgetter(<field>)" % fmt)
+                    return k.args[0].value
+                found = (key_of(n.body), key_of(n.orelse))
+        if found is None:
+            raise ValueError("%s: no 'if manager.agg_type == \"vuln\"' ordering found in report()" % fmt)
+        rows.append((fmt, found[0], found[1]))
+    return "Definition SORT_KEYS : list (pstr * (pstr * pstr)) := %s.\n" % L.lst(
+        [L.pair(L.pstr(a), L.pair(L.pstr(b), L.pstr(c))) for a, b, c in rows], "pstr * (pstr * pstr)")
+
+
 def main():
+    try:
+        write("FormatFacts.v", formats())
+    except Exception as e:
+        stub("FormatFacts.v", e)
     try:
         write("Locations.v", locations())
     except Exception as e:
